@@ -196,6 +196,15 @@ func (u *universe) open() *account.AccountDB {
 	return st
 }
 
+func (u *universe) indexOf(a common.Address) int {
+	for i := range u.addr {
+		if u.addr[i] == a {
+			return i
+		}
+	}
+	return -1
+}
+
 func (u *universe) roleOf(a common.Address) string {
 	for i := range u.addr {
 		if u.addr[i] == a {
